@@ -119,32 +119,59 @@ example :
 
 /-! ## (a) what the backend writes for a path is what Ninja reads -/
 
-/-- For every name without newline, carriage return and `|`: the text `ninja_quote(name, True)`, followed by anything
-that ends a path on a build line (blank, `:`, `|`, end of line), is read by the manifest lexer as exactly `name`
-(one literal piece per character, no variable reference), whatever the variable environment. -/
-theorem quote_read_roundtrip (name : Str) (h : ∀ c ∈ name, PlainChar c) (c0 : Char) (h0 : isTerm c0) (tail : Str)
-    (env : List (Str × Str)) :
-    ∃ e, readEval true (name.length + 1) false (Emit.ninjaQuoteBuild name ++ c0 :: tail) [] = .ok (e, c0 :: tail) ∧
-      evalStr env e = name := by
-  refine ⟨name.map Piece.lit, ?_, evalStr_lits env name⟩
-  simpa using readEval_quote name h c0 h0 tail [] (name.length + 1) (Nat.le_refl _)
+/-- `ninja_quote(name, True)` accepts exactly the names without newline and without `|` -/
+theorem quote_accepts_iff (name : Str) :
+    (∃ q, Emit.ninjaQuoteBuild name = some q) ↔ ('\n' ∉ name ∧ '|' ∉ name) := by
+  unfold Emit.ninjaQuoteBuild
+  by_cases h : '\n' ∈ name ∨ '|' ∈ name
+  · simp only [if_pos h]
+    constructor
+    · rintro ⟨q, hq⟩
+      cases hq
+    · intro ⟨h1, h2⟩
+      rcases h with h | h
+      · exact absurd h h1
+      · exact absurd h h2
+  · simp only [if_neg h]
+    refine ⟨fun _ => ⟨fun h1 => h (.inl h1), fun h2 => h (.inr h2)⟩, fun _ => ⟨_, rfl⟩⟩
 
-/-- full statement without the `|` exclusion -/
+/-- For every name that `ninja_quote(name, True)` accepts (it raises for newline and, since the repair, for `|`) and
+that holds no carriage return: the quoted text, followed by anything that ends a path on a build line (blank, `:`, `|`,
+end of line), is read by the manifest lexer as exactly `name` (literal pieces only, no variable reference),
+whatever the variable environment. -/
+theorem quote_read_roundtrip (name q : Str) (hq : Emit.ninjaQuoteBuild name = some q) (hcr : '\r' ∉ name)
+    (c0 : Char) (h0 : isTerm c0) (tail : Str) (env : List (Str × Str)) :
+    ∃ e, readEval true (name.length + 1) false (q ++ c0 :: tail) [] = .ok (e, c0 :: tail) ∧ evalStr env e = name := by
+  unfold Emit.ninjaQuoteBuild at hq
+  split at hq
+  · cases hq
+  · next hbad =>
+    cases hq
+    have hplain : ∀ c ∈ name, PlainChar c := by
+      intro c hc
+      refine ⟨?_, ?_, ?_⟩
+      · intro h; subst h; exact hbad (.inl hc)
+      · intro h; subst h; exact hcr hc
+      · intro h; subst h; exact hbad (.inr hc)
+    refine ⟨name.map Piece.lit, ?_, evalStr_lits env name⟩
+    simpa using readEval_quote name hplain c0 h0 tail [] (name.length + 1) (Nat.le_refl _)
+
+/-- the statement for *every* accepted name (no carriage-return exclusion) -/
 def quote_read_roundtrip_full : Prop :=
-  ∀ (name : Str), (∀ c ∈ name, c ≠ '\n' ∧ c ≠ '\r') → ∀ (tail : Str),
-    ∃ e, readEval true (name.length + 1) false (Emit.ninjaQuoteBuild name ++ ':' :: tail) [] = .ok (e, ':' :: tail) ∧
-      evalStr [] e = name
+  ∀ (name q : Str), Emit.ninjaQuoteBuild name = some q → ∀ (tail : Str),
+    ∃ e, readEval true (name.length + 1) false (q ++ ':' :: tail) [] = .ok (e, ':' :: tail) ∧ evalStr [] e = name
 
-/-- … is false: `ninja_quote` leaves `|` alone and Ninja has no escape for it — `a|b` is read as the path `a`
-followed by the implicit-output separator (known finding `pipe-in-path`) -/
-theorem quote_read_roundtrip_counterexample : ¬ quote_read_roundtrip_full := by
+/-- … still fails on a lone carriage return, which `ninja_quote` lets through and Ninja's lexer refuses
+(residual corner: not reachable from the project generator, `\r` in a target name) -/
+theorem quote_read_roundtrip_cr_counterexample : ¬ quote_read_roundtrip_full := by
   intro h
-  obtain ⟨e, h1, _⟩ := h "a|b".toList (by decide) []
+  obtain ⟨e, h1, _⟩ := h "a\rb".toList _ rfl []
   revert h1
-  simp [Emit.ninjaQuoteBuild, readEval]
+  simp [Emit.quoteChars, readEval]
 
-/-- non-vacuity: a name with blank, colon, dollar and non-ASCII letters meets the hypotheses -/
-example : ∀ c ∈ "a b:c$é".toList, PlainChar c := by unfold PlainChar; decide
+/-- non-vacuity: a name with blank, colon, dollar and non-ASCII letters is accepted -/
+example : Emit.ninjaQuoteBuild "a b:c$é".toList = some "a$ b$:c$$é".toList := by decide
+example : Emit.ninjaQuoteBuild "a|b".toList = none := by decide
 example : isTerm ':' := .inr (.inl rfl)
 
 /-! ## (c) the emission discipline -/
